@@ -78,6 +78,11 @@ COMMENTS = frozenset([
     'LINE_COMMENT', 'BLOCK_COMMENT'
 ])
 
+# the keywords of the restricted productions, section 7.9.1
+RESTRICTED_PRODUCTION_TOKENS = frozenset([
+    'BREAK', 'CONTINUE', 'RETURN', 'THROW'
+])
+
 PATT_LINE_TERMINATOR_SEQUENCE = re.compile(
     r'(\n|\r(?!\n)|\u2028|\u2029|\r\n)', flags=re.S)
 PATT_LINE_CONTINUATION = re.compile(
@@ -205,6 +210,12 @@ class Lexer(object):
         self.with_comments = with_comments
         self.yield_comments = yield_comments
         self.hidden_tokens = []
+        # whether a line terminator (also one inside a multi-line
+        # comment, see section 7.4) was seen since the last real token
+        self.line_terminator_seen = False
+        # the line terminator token that followed a restricted
+        # production keyword (section 7.9.1), pending the next real token
+        self.restricted_line_terminator = None
         self.build()
 
         if not with_comments:
@@ -251,8 +262,12 @@ class Lexer(object):
         self.next_tokens = []
         # do the dance to ensure the valid previous tokens are tracked.
         valid_prev_token = self.valid_prev_token
+        after_line_terminator = getattr(
+            self.cur_token, 'after_line_terminator', False)
         token = self.token()
         self.valid_prev_token = valid_prev_token
+        if token is not None:
+            token.after_line_terminator = after_line_terminator
         return token
 
     def token(self):
@@ -267,6 +282,30 @@ class Lexer(object):
         if self.next_tokens:
             return self.next_tokens.pop()
 
+        token = self._real_token()
+        if token is not None and token.type not in COMMENTS:
+            # note whether the token was preceded by a line terminator
+            # for the automatic semicolon insertion
+            token.after_line_terminator = self.line_terminator_seen
+            self.line_terminator_seen = False
+
+        # insert semicolon after the restricted productions if the next
+        # token was separated from them by a line terminator
+        # See section 7.9.1 ECMA262
+        if (self.restricted_line_terminator is not None and not (
+                token is not None and token.type in COMMENTS)):
+            line_terminator = self.restricted_line_terminator
+            self.restricted_line_terminator = None
+            if token is not None and token.type != 'SEMI':
+                if self.hidden_tokens:
+                    # keep the comments with the real token
+                    token.hidden_tokens = self.hidden_tokens
+                    self.hidden_tokens = []
+                self.next_tokens.append(token)
+                return self._create_semi_token(line_terminator)
+        return token
+
+    def _real_token(self):
         lexer = self.lexer
         while True:
             pos = lexer.lexpos
@@ -327,7 +366,7 @@ class Lexer(object):
 
     def auto_semi(self, token):
         if token is None or (token.type not in ('SEMI', 'AUTOSEMI') and (
-                token.type == 'RBRACE' or self._is_prev_token_lt())):
+                token.type == 'RBRACE' or self._is_prev_token_lt(token))):
             if token:
                 self.next_tokens.append(token)
             return self._create_semi_token(token)
@@ -342,8 +381,8 @@ class Lexer(object):
                 self.cur_token.type not in DIVISION_SYNTAX_MARKERS):
             self.cur_token_real = self.cur_token
 
-    def _is_prev_token_lt(self):
-        return self.prev_token and self.prev_token.type == 'LINE_TERMINATOR'
+    def _is_prev_token_lt(self, token):
+        return getattr(token, 'after_line_terminator', False)
 
     def _read_regex(self):
         self.lexer.begin('regex')
@@ -352,7 +391,23 @@ class Lexer(object):
         return token
 
     def _get_update_token(self):
-        self._set_tokens(self.get_lexer_token())
+        token = self.get_lexer_token()
+        if token is not None and token.type in DIVISION_SYNTAX_MARKERS:
+            # line terminators and comments are not part of the history
+            # of tokens used for telling division and regex apart or for
+            # locating the parentheses of the for/while/if statements,
+            # but they do matter for automatic semicolon insertion.
+            if token.type == 'LINE_TERMINATOR' or (
+                    token.type == 'BLOCK_COMMENT' and
+                    PATT_LINE_TERMINATOR_SEQUENCE.search(token.value)):
+                self.line_terminator_seen = True
+                if (self.restricted_line_terminator is None and
+                        self.cur_token is not None and
+                        self.cur_token.type in RESTRICTED_PRODUCTION_TOKENS):
+                    self.restricted_line_terminator = token
+            return token
+
+        self._set_tokens(token)
 
         if self.cur_token is not None:
 
@@ -383,15 +438,6 @@ class Lexer(object):
                         self.cur_token.colno,
                     )
                 )
-
-        # insert semicolon before restricted tokens
-        # See section 7.9.1 ECMA262
-        if (self.cur_token is not None
-            and self.cur_token.type == 'LINE_TERMINATOR'
-            and self.prev_token is not None
-            and self.prev_token.type in ['BREAK', 'CONTINUE',
-                                         'RETURN', 'THROW']):
-            return self._create_semi_token(self.cur_token)
 
         return self.cur_token
 
